@@ -91,13 +91,22 @@ func (r *Runner) execCallVals(st *State, f *Frame, common *ssa.CallCommon, fnv V
 		if callee == nil {
 			key := "(" + typeKey(common.Value.Type()) + ")." + common.Method.Name()
 			if sp := r.specFor(key); sp != nil {
+				if !r.pureIfaceMethod(typeKey(common.Value.Type()), common.Method.Name()) {
+					r.bumpIfaceVersion(st, typeKey(common.Value.Type()))
+				}
 				r.contractCall(st, f, sp, nil, common.Signature(), append([]Val{recv}, args...), res, pos)
 				return
 			}
-			if isPureExternal(key) || r.pureIfaceMethod(typeKey(common.Value.Type()), common.Method.Name()) {
+			if r.pureIfaceMethod(typeKey(common.Value.Type()), common.Method.Name()) {
+				r.pureIfaceCall(st, f, typeKey(common.Value.Type()), common.Method.Name(), recv, args, res)
+				return
+			}
+			if isPureExternal(key) {
 				r.havocCall(st, f, common.Signature(), nil, res, key, false)
 				return
 			}
+			// a method that may mutate the object: later reads through pure accessors see a new version
+			r.bumpIfaceVersion(st, typeKey(common.Value.Type()))
 			r.note("interface call havocked: " + key)
 			r.havocCall(st, f, common.Signature(), append([]Val{recv}, args...), res, key, true)
 			return
